@@ -20,7 +20,7 @@ void vbi_transp_colormap(vbi_decoder *vbi, vbi_rgba *d, vbi_rgba *s, int entries
 
 #ifdef VERIF_CBMC
 /* the only reachable call: snprintf(buf, 16, "\2%x.%02x\7", pgno, subno & 0xff) with pgno 0x100, subno 0 */
-int snprintf(char *s, size_t n, const char *fmt, ...)
+int c02fmt_snprintf(char *s, size_t n, const char *fmt, ...)
 { static const char t[9] = "\002100.00\007"; unsigned i; (void) fmt; for (i = 0; i < 9 && i < n; i++) s[i] = t[i]; return 8; }
 #endif
 #endif
